@@ -1,6 +1,6 @@
 (* C10 - the generated module tree mirrors the template directory tree.  Theorems only. *)
 From Coq Require Import Lia Permutation.
-From Ructe Require Import Nom Utf8 Emit Compile Md5 Static Tables Build MapProofs StaticProofs BuildProofs.
+From Ructe Require Import Nom Utf8 Emit Compile Md5 Static Tables Build MapProofs StaticProofs BuildProofs TreeMirror.
 Local Open Scope list_scope.
 
 Section C10.
@@ -85,6 +85,26 @@ End C10.
 Theorem handle_entries_is_framed : forall uni_esc compile fuel, framed (handle_entries uni_esc compile fuel).
 Proof. exact handle_entries_frame. Qed.
 
+(* whole trees: wherever a parsing template <stem>.rs.<ext> sits -- below any chain ds of directories
+   with UTF-8 names, among any siblings, at any depth -- a successful compile_templates has planned
+   the file template_<stem>_<ext>.rs with its code in the mirrored directory, declared it in that
+   directory's module text (templates.rs for the root, the planned mod.rs below), and declared the
+   first directory of the chain as `pub mod` (and, by the same statement one level down, every
+   further one) *)
+Theorem tree_mirror : forall (uni_esc : N -> bool) (compile : bytes -> bytes -> coutcome) (stem s content code : bytes),
+  In s template_suffixes -> utf8_valid (stem ++ s) = true ->
+  let name := stem ++ b "_" ++ skipn 4 s in
+  compile name content = Accepted code ->
+  forall ds fuel es w f indir outdir w' f', at_path es ds (stem ++ s) content ->
+  handle_entries uni_esc compile fuel w f indir outdir es = BOk _ (w', f') ->
+  In (pjoin (dir_join outdir ds) (b "template_" ++ name ++ b ".rs"), code) (plan w') /\
+  match ds with
+  | [] => exists g, f' = f ++ g /\ contains g (mod_decl name)
+  | d :: _ => (exists g, f' = f ++ g /\ contains g (b "pub mod " ++ d ++ b ";" ++ [10%N; 10%N])) /\
+              exists modrs, In (pjoin (dir_join outdir ds) (b "mod.rs"), modrs) (plan w') /\ contains modrs (mod_decl name)
+  end.
+Proof. exact tree_mirror_lemma. Qed.
+
 (* the same stem under different suffixes gives different functions; a whole tree *)
 Example same_stem_different_suffix :
   let tree := [(b "a.rs.html", File (b "H")); (b "a.rs.svg", File (b "S")); (b "notes.txt", File (b "x"));
@@ -107,3 +127,4 @@ Redirect "assumptions/C10.other_files_ignored" Print Assumptions other_files_ign
 Redirect "assumptions/C10.subdir_becomes_module" Print Assumptions subdir_becomes_module.
 Redirect "assumptions/C10.directory_is_sum_of_entries" Print Assumptions directory_is_sum_of_entries.
 Redirect "assumptions/C10.handle_entries_is_framed" Print Assumptions handle_entries_is_framed.
+Redirect "assumptions/C10.tree_mirror" Print Assumptions tree_mirror.
